@@ -251,6 +251,8 @@ def run_shard(mod, tier: str, seed: int, shard: int, nshards: int, known: dict,
     t0 = time.monotonic()
     err = None
     try:
+        if shard == 0 and not only:
+            replay_regress(mod, ctx)
         for part in mod.parts(tier):
             if only and part.name != only:
                 continue
@@ -273,6 +275,26 @@ def run_shard(mod, tier: str, seed: int, shard: int, nshards: int, known: dict,
     out["error"] = err
     out["shard"] = shard
     return out
+
+
+def replay_regress(mod, ctx: Ctx) -> None:
+    """Replay the committed shrunk reproductions (seconds) before searching."""
+    d = VERIF / "regress" / mod.PID
+    if not d.is_dir():
+        return
+    byname = {p.name: p for p in mod.parts("quick")}
+    for f in sorted(d.glob("*.json")):
+        data = json.loads(f.read_text())
+        part = byname.get(data["part"])
+        if part is None:
+            raise HarnessError(f"regress file {f} names unknown part {data['part']}")
+        ctx.part = "regress:" + f.name
+        ctx.deadline = float("inf")
+        v = guarded(part.prop, data["case"], ctx)
+        ctx.count("regress_replayed")
+        if v is not None:
+            ctx.add_failure(part.name, v.bucket, data["case"],
+                            f"[regress {f.name}] " + v.message)
 
 
 # -- known findings --------------------------------------------------------------
